@@ -18,11 +18,11 @@ LEVEL = 'exploration'
 BUDGET_S = {'quick': 300, 'thorough': 1500}
 RULE = ('formulas over the operator grammar rendered from generated ASTs (exhaustive chains of <=3 operators over '
         'distinct primes with one decoration and one parenthesis pair; Hypothesis typed trees with <=10 operators over '
-        'literals and references supplied by workbook constants / overrides / blanks; numeric literal grid); '
+        'literals and references supplied by workbook constants / overrides / blanks; numeric literal grid; lane big: doubles of 2**53..1e300 from overrides, literals and quotients under &, +1-1, /2*2); '
         'non-trivial = at least two operators and the reference value differs from the value of the same token list '
         'under at least one wrong grouping (flat left-to-right, right-associative, unary-sign-loosest), or a literal '
         'with a fraction or exponent; distinct = distinct (formula text, cell values) JSON')
-ASSUMPTIONS = ['arithmetic on text and ordering of mixed kinds are outside the asserted domain; text forms under & are asserted: TRUE / FALSE, the empty text for a blank, 15 significant digits for numbers (no exponent forms)',
+ASSUMPTIONS = ['arithmetic on text and ordering of mixed kinds are outside the asserted domain; text forms under & are asserted: TRUE / FALSE, the empty text for a blank, 15 significant digits for numbers; for magnitudes of 1e15 and more (lane big) only that the joined text denotes the number to 15 digits, the spelling of the exponent is not asserted',
                'floating-point results compared with relative tolerance 1e-12 (the product normalises to 15 digits around %)',
                'division by an expression whose reference value is 0 is skipped']
 
@@ -254,6 +254,8 @@ def run_batch(cases, rec=None):
 
 def run_case(case):
     c = dict(case)
+    if c.get('kind') == 'big':
+        return run_big([c])
     if 'ast' in c:
         c['formula'] = F.render(c['ast'], c.get('gaps'))
     if c.get('sheet') == 'T':
@@ -347,7 +349,9 @@ def typed_strategies():
     word = st.sampled_from(WORDS).map(lambda w: ['str', w])
     # texts with characters that mean something elsewhere (in formulas, in xml, in format strings): under & they are just characters
     odd = st.sampled_from(['a@b', '@', 'x  y', ' lead', 'trail ', 'tab\there', '#1', '{0}', '{x}', '[1]x', '_xlfn.', "o'k", 'a,b;c', '1+1', '(x)', 'A1:B2', 'é', 'ß', '100%',
-                           '=1', '<>', '&', '$A$1', '\\n', '%s', 'TRUE', ' ']).map(lambda w: ['str', w])
+                           '=1', '<>', '&', '$A$1', '\\n', '%s', 'TRUE', ' ',
+                           # wildcards and tildes: outside a criterion they are ordinary characters
+                           '*', '?', '~', 'a*', 'what?', '~*', '~?', '~~', '~~*', '?~~', 'a~*b?', 'is it ~? or *', '*~~?', '~a*']).map(lambda w: ['str', w])
     quotient = st.tuples(st.integers(1, 12), st.sampled_from([1, 2, 3, 4, 5, 8])).map(lambda t: ['par', ['bin', '/', ['num', str(t[0])], ['num', str(t[1])]]])
     piece = st.one_of(word, word, odd, intexp, st.tuples(st.integers(0, 9), st.integers(1, 9)).map(lambda t: ['num', f'{t[0]}.{t[1]}']),
                       boollit, quotient, st.sampled_from(['A5', 'A6']).map(lambda r: ['ref', r]),
@@ -358,7 +362,8 @@ def typed_strategies():
     cmpop = st.sampled_from(F.CMP)
     boolean = st.one_of(
         st.tuples(cmpop, num, num).map(lambda t: ['bin', t[0], t[1], t[2]]),
-        st.tuples(cmpop, wordsonly, wordsonly).map(lambda t: ['bin', t[0], t[1], t[2]]))
+        st.tuples(cmpop, wordsonly, wordsonly).map(lambda t: ['bin', t[0], t[1], t[2]]),
+        st.tuples(st.sampled_from(['=', '<>']), st.one_of(odd, odd, word), st.one_of(odd, word)).map(lambda t: ['bin', t[0], t[1], t[2]]))
     boolean2 = st.one_of(boolean, st.tuples(st.sampled_from(['=', '<>']), boolean, boolean).map(
         lambda t: ['bin', t[0], t[1], t[2]]))
     # booleans used as numbers
@@ -444,12 +449,73 @@ def _level_operands(node):
     return [node]
 
 
+
+# ------------------------------------------------------------------ numbers beyond 2**53 / 1e15 (doubles, not integers)
+
+BIG_VALUES = [2.0 ** 53, 2.0 ** 53 + 2, 2.0 ** 60, 1e15, 1e16, 123456789012345680.0, 1e20, 1.5e20, -1e20, -2.0 ** 53, 1e100, 1e300]
+BIG_FORMS = ['text', 'text-units', 'plus-one-minus', 'ratio', 'times-one-text', 'minus-one-plus', 'half-double']
+BIG_SOURCES = ['override', 'literal', 'quotient']
+
+
+def big_cases():
+    for v in BIG_VALUES:
+        for src in BIG_SOURCES:
+            if src == 'literal' and (v < 0 or float('%r' % v) != v or 'e' not in repr(v)):
+                continue
+            for form in BIG_FORMS:
+                yield {'kind': 'big', 'value': v, 'source': src, 'form': form}
+
+
+def _big_formula(c):
+    v, src = c['value'], c['source']
+    x = {'override': 'A1', 'literal': repr(v).replace('+', ''), 'quotient': '(A1/A2)'}[src]
+    return {'text': f'={x}&""', 'text-units': f'={x}&" units"', 'plus-one-minus': f'=({x}+1)-{x}', 'ratio': f'={x}/{x}',
+            'times-one-text': f'={x}*1&""', 'minus-one-plus': f'=({x}-1)+1-{x}', 'half-double': f'={x}/2*2-{x}'}[c['form']]
+
+
+def run_big(cases, rec=None):
+    """the operands are doubles: (x+1)-x is what double arithmetic gives, and the text that & joins denotes the number
+    (whatever the spelling of the exponent) to 15 significant digits"""
+    fails = []
+    groups = {}
+    for c in cases:
+        groups.setdefault((c['value'], c['source']), []).append(c)
+    for (v, src), g in groups.items():
+        ov = [('S', 'A', '1', v)] if src == 'override' else [('S', 'A', '1', v * 4.0), ('S', 'A', '2', 4.0)] if src == 'quotient' else []
+        outs = wbk.eval_formulas([{'title': 'S', 'cells': {'A1': 5, 'A2': 7}}], [_big_formula(c) for c in g], first_col=3, ncols=10, overrides=ov)
+        for c, o in zip(g, outs):
+            form = c['form']
+            if form in ('text', 'text-units', 'times-one-text'):
+                exp = {'$text-of': v}
+                ok = False
+                if o[0] == 'value' and type(o[1]) is str:
+                    t = o[1]
+                    if form == 'text-units':
+                        ok = t.endswith(' units')
+                        t = t[:-6]
+                    else:
+                        ok = True
+                    try:
+                        ok = ok and t == t.strip() and abs(float(t) - v) <= 1e-14 * abs(v)
+                    except ValueError:
+                        ok = False
+            else:
+                exp = {'plus-one-minus': (v + 1.0) - v, 'ratio': 1.0, 'minus-one-plus': (v - 1.0) + 1.0 - v, 'half-double': 0.0}[form]
+                ok = o[0] == 'value' and type(o[1]) in (int, float) and o[1] == exp
+            if rec:
+                rec.case({'f': _big_formula(c), 'x': v, 'src': src}, True, ['lane:big', 'big:' + form, 'bigsrc:' + src], sample={**c, 'formula': _big_formula(c)})
+            if not ok and o[0] != 'timeout':
+                fails.append({'case': {**c, 'formula': _big_formula(c)}, 'expected': exp, 'actual': wbk.show_outcome(o), 'relation': 'double-arithmetic',
+                              'bucket': 'big:' + form + ':' + src})
+    return fails
+
+
 NSHARD = 16
 
 
 def plan(tier):
     specs = [{'kind': 'chains', 'shard': i, 'k3_fraction': 0.12 if tier == 'quick' else 1.0} for i in range(NSHARD)]
-    specs += [{'kind': 'literals', 'shard': 50}]
+    specs += [{'kind': 'literals', 'shard': 50}, {'kind': 'big', 'shard': 51}]
     n = 40 if tier == 'quick' else 900
     specs += [{'kind': 'hyp', 'shard': 100 + i, 'examples': n} for i in range(NSHARD)]
     return specs
@@ -480,6 +546,10 @@ def run_shard(spec, rec):
             cases = [{'literal': t, 'formula': '=' + t, 'cells': {}, 'overrides': {}} for t in lits[i:i + 200]]
             for f in run_batch(cases, rec):
                 rec.fail(**f)
+    elif spec['kind'] == 'big':
+        rec.exhaustive = True
+        for f in run_big(list(big_cases()), rec):
+            rec.fail(**f)
     else:
         def body(ex):
             asts, cellspec, rnd = ex
@@ -489,7 +559,7 @@ def run_shard(spec, rec):
 
 
 def shrink_candidates(case):
-    if 'ast' not in case:
+    if 'ast' not in case or case.get('kind') == 'big':
         return
     for s in F.subtrees_smaller(case['ast']):
         yield {**case, 'ast': s, 'gaps': None}
